@@ -152,7 +152,8 @@ def _emit_tracer_loop(
             reentrant_handlers_only=reentrant_handlers_only,
             **kwargs,
         )
-        if isinstance(new_ret, tuple) and len(new_ret) > 1 and new_ret[0] is SkipAll:
+        # an exact tuple only: a program value of a tuple subclass must not have its __len__ / __getitem__ called here
+        if type(new_ret) is tuple and len(new_ret) > 1 and new_ret[0] is SkipAll:
             kwargs["ret"] = new_ret[1]
             break
         else:
